@@ -90,7 +90,7 @@ impl Scenario for C39Scn {
         "C39"
     }
     fn rule(&self) -> &'static str {
-        "side A (real connection with an object server whose handlers sleep on the simulated clock) holds 1..7 handles: connection clones, unfiltered and rule streams, proxies (with and without a running property-cache task), a proxy signal stream, an InterfaceRef; in a third of the runs 1..3 further creations of such handles are cancelled at one of their first await points (fault kind cancel_task; on a p2p connection these creations seldom suspend, the fired counter says how often one was really cut) and must leave nothing behind that keeps the connection alive; the raw peer sends 0..3 calls up front; the director drops the handles in a seeded order (all of them, or all but one), optionally calling graceful_shutdown() on one clone, running a seeded number of scheduler steps between actions; oracle: the peer observes EOF by quiescence iff every handle is gone, never before the last one went, every handler that started got its reply on the wire, graceful_shutdown completes iff everything else is gone and writes nothing afterwards; non-trivial = at least three handles of two kinds, or a handler in flight when the last handle went"
+        "side A (real connection with an object server whose handlers sleep on the simulated clock) holds 1..7 handles: connection clones, unfiltered and rule streams, proxies (with and without a running property-cache task), a proxy signal stream, an InterfaceRef; in a third of the runs 1..3 further creations of such handles are cancelled at one of their first await points (fault kind cancel_task; on a p2p connection these creations seldom suspend, the fired counter says how often one was really cut) and must leave nothing behind that keeps the connection alive; the raw peer sends 0..3 calls up front; the director drops the handles in a seeded order (all of them, or all but one), optionally calling graceful_shutdown() on one clone (or on every clone that goes, so that several are pending at once), running a seeded number of scheduler steps between actions; oracle: the peer observes EOF by quiescence iff every handle is gone, never before the last one went, every handler that started got its reply on the wire, every graceful_shutdown completes iff everything else is gone and writes nothing afterwards; non-trivial = at least three handles of two kinds, or a handler in flight when the last handle went"
     }
     fn runs(&self, tier: Tier) -> u64 {
         match tier {
@@ -120,12 +120,14 @@ impl Scenario for C39Scn {
         if rng.chance(1, 4) {
             order.pop();
         }
+        // graceful_shutdown() on one clone, or (one run in three of those) on every clone that goes
         let shutdown_one = rng.chance(1, 3);
+        let shutdown_many = shutdown_one && rng.chance(1, 3);
         let mut did = false;
         let steps = order
             .into_iter()
             .map(|i| {
-                let act = if shutdown_one && !did && handles[i as usize] == HKind::Clone {
+                let act = if shutdown_one && (!did || shutdown_many) && handles[i as usize] == HKind::Clone {
                     did = true;
                     Act::Shutdown(i)
                 } else {
@@ -245,8 +247,9 @@ impl Scenario for C39Scn {
         });
 
         // ---- director ----
-        let shutdown_done = shared(None::<(u64, u64)>);
-        let mut shutdown_started = false;
+        // (step, bytes written so far) of every graceful_shutdown() that completed
+        let shutdown_done = shared(Vec::<(u64, u64)>::new());
+        let mut shutdowns_started = 0usize;
         let mut last_action_step = 0u64;
         let mut tasks = vec![];
         for (act, run) in &p.steps {
@@ -259,12 +262,12 @@ impl Scenario for C39Scn {
                     let h = slots.lock().unwrap()[*i as usize].take();
                     if let Some(h) = h {
                         if let Ok(conn) = h.downcast::<Connection>() {
-                            shutdown_started = true;
+                            shutdowns_started += 1;
                             let (sd, ww, ol) = (shutdown_done.clone(), w.clone(), outlink.clone());
                             tasks.push(w.spawn("graceful-shutdown", async move {
                                 conn.graceful_shutdown().await;
                                 let written = ol.st.lock().unwrap().total_written;
-                                *sd.lock().unwrap() = Some((ww.steps(), written));
+                                sd.lock().unwrap().push((ww.steps(), written));
                             }));
                         }
                     }
@@ -283,7 +286,7 @@ impl Scenario for C39Scn {
         let po = std::mem::take(&mut *pobs.lock().unwrap());
         let log_v = log.lock().unwrap().clone();
         let final_written = outlink.st.lock().unwrap().total_written;
-        let sd = *shutdown_done.lock().unwrap();
+        let sd = shutdown_done.lock().unwrap().clone();
         let alive_kinds: Vec<HKind> = slots.lock().unwrap().iter().enumerate().filter(|(_, h)| h.is_some()).map(|(i, _)| p.handles[i]).collect();
         drop(tasks);
         drop(peer);
@@ -307,14 +310,19 @@ impl Scenario for C39Scn {
         if started > po.replies.len() {
             return Verdict::fail("reply", "in-flight-handler-lost-its-reply", format!("{started} handlers started but only {} replies reached the peer (handles all gone: {all_gone})", po.replies.len()));
         }
-        if shutdown_started {
-            match (sd, all_gone) {
-                (None, true) => return Verdict::fail("shutdown", "graceful-shutdown-never-completed", "every other handle is gone and all handlers finished, but graceful_shutdown() is still pending".to_string()),
-                (Some(_), false) => return Verdict::fail("shutdown", "graceful-shutdown-completed-early", "graceful_shutdown() completed although another handle is still alive".to_string()),
-                (Some((_, written)), true) if written != final_written => {
-                    return Verdict::fail("shutdown", "wrote-after-shutdown-completed", format!("{} bytes were written after graceful_shutdown() had completed", final_written - written));
-                }
-                _ => {}
+        if shutdowns_started > 0 {
+            if all_gone && sd.len() < shutdowns_started {
+                return Verdict::fail(
+                    "shutdown",
+                    if shutdowns_started == 1 { "graceful-shutdown-never-completed" } else { "one-of-several-graceful-shutdowns-never-completed" },
+                    format!("every handle is gone and all handlers finished, but only {} of {shutdowns_started} graceful_shutdown() calls completed", sd.len()),
+                );
+            }
+            if !all_gone && !sd.is_empty() {
+                return Verdict::fail("shutdown", "graceful-shutdown-completed-early", "graceful_shutdown() completed although another handle is still alive".to_string());
+            }
+            if let Some((_, written)) = sd.iter().find(|(_, written)| *written != final_written) {
+                return Verdict::fail("shutdown", "wrote-after-shutdown-completed", format!("{} bytes were written after graceful_shutdown() had completed", final_written - written));
             }
         }
         let kinds: std::collections::BTreeSet<String> = p.handles.iter().map(|h| format!("{h:?}")).collect();
@@ -322,8 +330,11 @@ impl Scenario for C39Scn {
         if in_flight {
             w.count("probe.handler_in_flight_when_last_handle_went");
         }
-        if shutdown_started {
+        if shutdowns_started > 0 {
             w.count("probe.graceful_shutdown_used");
+        }
+        if shutdowns_started > 1 {
+            w.count("probe.several_graceful_shutdowns_pending");
         }
         Verdict::ok((p.handles.len() >= 3 && kinds.len() >= 2) || in_flight)
     }
